@@ -1,4 +1,12 @@
+//! vf-tree: C42 (tree traversal / rewriting contract) and C43 (configuration round trip).
+mod c42a;
+mod c42b;
+mod c42known;
+mod c42ref;
+
 fn main() {
-    eprintln!("no sub-commands yet");
-    std::process::exit(2);
+    vf_kit::dispatch! {
+        "c42a" => c42a::C42a,
+        "c42b" => c42b::C42b,
+    }
 }
